@@ -9,6 +9,7 @@ import sys
 
 repo = sys.argv[1] if len(sys.argv) > 1 else "/repo"
 out = {}
+returns = {}
 for fn in sorted(os.listdir(os.path.join(repo, "psec"))):
     if not fn.endswith(".py") or fn == "__init__.py":
         continue
@@ -19,6 +20,9 @@ for fn in sorted(os.listdir(os.path.join(repo, "psec"))):
             a = node.args
             if not (a.vararg or a.kwarg or a.kwonlyargs or a.posonlyargs):
                 out[f"{mod}.{node.name}"] = [x.arg for x in a.args]
+                if node.returns is not None:
+                    returns[f"{mod}.{node.name}"] = ast.unparse(node.returns)
 here = os.path.dirname(os.path.dirname(os.path.abspath(__file__)))
 json.dump(out, open(os.path.join(here, "harness", "api_signatures.json"), "w"), indent=1, sort_keys=True)
+json.dump(returns, open(os.path.join(here, "harness", "api_returns.json"), "w"), indent=1, sort_keys=True)
 print(len(out), "functions")
